@@ -142,6 +142,7 @@ pub fn fuzz_gen(prop: &str, src: &mut crate::src::Src) -> Option<(&'static str, 
         },
         "C11" => match k {
             0 => ("short-every-cut", c11::gen_short_all_cuts(src, 0)),
+            1 => ("origin-outside-random", c11::gen_origin_outside(src, 0)),
             _ => ("random-histories", c11::gen_case(src, 0)),
         },
         "C12" => match k {
